@@ -204,3 +204,75 @@ def verify_startup(run):
                calls={'self.getblocks': sblocks_of, 'blk.save_persistent_state': save_call, 'queue.empty': q_empty, 'queue.get_nowait': q_get_nowait},
                invariants={'for blk in self.getblocks(block.SBlock)': inv_sync2_a, 'for blk in self.getblocks(block.SBlock)#1': inv_sync2_b,
                            'for blk in self.getblocks(addons.AddonPersistence)': inv_sync2_c, 'while not queue.empty()': inv_sync2_drain})
+
+
+# ---- AddonAsyncInit: init_async waits for the first output value -------------------------------------------------------------------------------------
+declare_fields(_init_event=VAL, ev_set=BOOL)
+QAI = 'edzed.addons:AddonAsyncInit.'
+
+
+def aai_super_set_output(ex, e, st):
+    """super().set_output(value): the contract of SBlock.set_output"""
+    from pyvc import calls as _c
+    k = CONTRACTS['SBlock.set_output']
+    outs = []
+    for s1, vals in ex.evs(e.args, st):
+        outs.extend(_c.apply_bound(ex, s1, k, {'self': ZV('ref', as_kind(s1.env['self'], Ref(), s1), 'SBlock'), 'value': ZV('val', to_val(vals[0], s1))},
+                                   'call:SBlock.set_output'))
+    return outs
+
+
+def ev_is_set(ex, e, st):
+    me = as_kind(st.env['self'], Ref(), st)
+    return [(st, ZV('bool', st.readz('ev_set', Val.ref(st.readz('_init_event', me)))))]
+
+
+def ev_set_call(ex, e, st):
+    st = st.copy(); me = as_kind(st.env['self'], Ref(), st)
+    ev = Val.ref(st.readz('_init_event', me))
+    ex.emit(st, rec('event.set', Val.Obj(ev)))
+    st.heap['ev_set'] = Store(st.comp('ev_set', BoolSort()), ev, BoolVal(True))
+    return [(st, P_NONE)]
+
+
+@contract('AddonAsyncInit.set_output', qual=QAI + 'set_output', modifies=DELIVERY + ('ev_set',), self_cls='AddonAsyncInit')
+def _aai_set_output(c):
+    me, v = c.z('self'), c.v('value')
+    ev = c.pre('_init_event', me)
+    c.requires('started', Val.is_Obj(ev))
+    c.raises('ValueError', when=v == Val.Undef, iff=True)
+    c.raises('DeliveryError', when=v != Val.Undef, unchanged=False)
+    c.ensures('output_assigned_and_the_waiting_init_async_released', And(c.post('_output', me) == set_output_result(c.pre('_output', me), v),
+                                                                        c.post('ev_set', Val.ref(ev))))
+    c.ensures('event_means_output', Implies(c.post('ev_set', Val.ref(ev)), c.post('_output', me) != Val.Undef))
+
+
+def await_init_event(ex, node, st):
+    """await self._init_event.wait(): returns only after the event was set (other tasks run meanwhile)"""
+    me = as_kind(st.env['self'], Ref(), st)
+    ev = Val.ref(st.readz('_init_event', me))
+    post = st.copy()
+    for f in HANDLER_EFFECTS + ('ev_set',): post.havoc_field(f)
+    impose_callee_guarantees(View(st), View(post))
+    post.assume(post.readz('ev_set', ev))
+    # invariant of the block (proved for set_output above, the only code that sets the event: scan): event set => output defined
+    post.assume(Implies(post.readz('ev_set', ev), post.readz('_output', me) != Val.Undef))
+    ca = st.copy(); ca.label('cancelled')
+    return [(post, P_NONE), (ca, Raise(PExc('CancelledError', val=Val.Obj(fresh('exc', IntSort())), where='callee')))]
+
+
+@contract('AddonAsyncInit.init_async', qual=QAI + 'init_async', modifies=HANDLER_EFFECTS + ('ev_set',), self_cls='AddonAsyncInit')
+def _aai_init_async(c):
+    me = c.z('self')
+    c.requires('started', Val.is_Obj(c.pre('_init_event', me)))
+    c.ensures('returns_only_when_the_block_has_an_output', c.post('_output', me) != Val.Undef)
+    c.raises('CancelledError', label='timed_out_or_shut_down')
+
+
+def verify_async_init_addon(run):
+    from pyvc import scan
+    run.verify('AddonAsyncInit.set_output', cls='AddonAsyncInit', hooks={'opaque_fstrings': True},
+               calls={'super().set_output': aai_super_set_output, 'self._init_event.is_set': ev_is_set, 'self._init_event.set': ev_set_call})
+    run.verify('AddonAsyncInit.init_async', cls='AddonAsyncInit', hooks={'opaque_fstrings': True, 'await': awaits({'self._init_event.wait()': await_init_event})})
+    w = scan.attr_writers('_init_event')
+    run.scan('writers_of__init_event', w == ['edzed/addons.py:AddonAsyncInit.__init__', 'edzed/addons.py:AddonAsyncInit.start'], f'{w}')
